@@ -200,4 +200,11 @@ pub fn derived_command_names() -> (r: &'static [&'static str])
 {
     unimplemented!()
 }
+
+/// stands for `#command_count` in the derive(Command) help template (rule T7): some number
+#[verifier::external_body]
+pub fn derived_command_count() -> (r: usize)
+{
+    unimplemented!()
+}
 } // verus!
